@@ -3,6 +3,7 @@ module verifharness
 go 1.22
 
 require (
+	github.com/relex/fluentlib v0.0.0-20240516105411-5529b575f355
 	github.com/relex/gotils v1.1.1
 	github.com/relex/slog-agent v0.0.0
 )
@@ -20,7 +21,6 @@ require (
 	github.com/prometheus/common v0.55.0 // indirect
 	github.com/prometheus/procfs v0.15.1 // indirect
 	github.com/puzpuzpuz/xsync v1.5.2 // indirect
-	github.com/relex/fluentlib v0.0.0-20240516105411-5529b575f355 // indirect
 	github.com/samber/lo v1.39.0 // indirect
 	github.com/sirupsen/logrus v1.9.3 // indirect
 	github.com/vmihailenco/msgpack/v4 v4.3.13 // indirect
